@@ -24,7 +24,10 @@ type FStep struct {
 	Restart     bool     `json:"restart,omitempty"`      // the controller restarts first: new Instance over the same directories, full sync
 	Faults      []string `json:"faults,omitempty"`       // file classes, "reload-request", "reload-result", "reload-reset", "reload-eof[-ok]", "reload-garbage[-ok]"
 	QueueFaults int      `json:"queue_faults,omitempty"` // queue mode: number of failing reloads before the queue's reload succeeds
-	QueueKind   string   `json:"queue_kind,omitempty"`   // how they fail: "" = reload result, "reset" = connection reset while sending reload
+	// DeferReload (queue mode): the reload queue does not fire during this step; a reload that is
+	// (or already was) enqueued waits - rate limiter, retry timer - and fires at the end of a later step
+	DeferReload bool   `json:"defer_reload,omitempty"`
+	QueueKind   string `json:"queue_kind,omitempty"` // how they fail: "" = reload result, "reset" = connection reset while sending reload
 }
 
 // History is the replayable input.
@@ -93,6 +96,9 @@ func gen(rng *rand.Rand, wide bool) History {
 			for k := 0; k < n; k++ {
 				fs.Faults = append(fs.Faults, cls[rng.Intn(len(cls))])
 			}
+		}
+		if !h.Inline && rng.Intn(3) == 0 {
+			fs.DeferReload = true
 		}
 		if !h.Inline && rng.Intn(4) == 0 {
 			fs.QueueFaults = 1 + rng.Intn(2)
@@ -185,6 +191,18 @@ func corpus() []History {
 			out = append(out, History{Shards: 3, Inline: true, Steps: []FStep{fst(true, h0, b0, nil), fst(false, h01, b01, nil, c), fst(false, h01, b01, nil)}})
 		}
 	}
+	// a queued reload fires, and succeeds, between a failed update and its retry (empty batch, or
+	// unrelated change): step 1 succeeds and its reload waits; step 2 fails at a file write, then the
+	// queue fires; step 3 is the retry
+	for _, c := range []string{"front:crt", "main", "shard:0", "backmaps"} {
+		s1 := fst(false, h01, b01, nil)
+		s1.DeferReload = true
+		out = append(out, History{Shards: 3, Inline: false, Steps: []FStep{fst(true, h0, b0, nil), s1,
+			fst(false, map[string]H{"h0": {Paths: []P{{Path: "/", Backend: "b0"}}}, "h1": {Paths: []P{{Path: "/", Backend: "b1", SSLRedirect: true}, {Path: "/a", Backend: "b1"}}}, "h2": {Paths: []P{{Path: "/", Backend: "b2"}}}},
+				map[string]B{"b0": {Eps: []int{1}}, "b1": {Eps: []int{2}}, "b2": {Eps: []int{3}}}, nil, c),
+			fst(false, map[string]H{"h0": {Paths: []P{{Path: "/", Backend: "b0"}}}, "h1": {Paths: []P{{Path: "/", Backend: "b1", SSLRedirect: true}, {Path: "/a", Backend: "b1"}}}, "h2": {Paths: []P{{Path: "/", Backend: "b2"}}}},
+				map[string]B{"b0": {Eps: []int{1}}, "b1": {Eps: []int{2}}, "b2": {Eps: []int{3}}}, nil)}})
+	}
 	// reload through the queue fails twice, the queue retries
 	q := fst(false, h01, b01, nil)
 	q.QueueFaults = 2
@@ -195,6 +213,7 @@ func corpus() []History {
 // ---------------------------------------------------------------- run
 
 type stepObs struct {
+	LastFailed  bool
 	Err         string
 	ReloadAsked bool // queue mode: a reload was enqueued
 	Reloads     int  // reload commands received by the master socket during the step
@@ -228,6 +247,8 @@ func runHistory(base string, h History) runResult {
 	}
 	pendingFault := "" // first fault of a failed update not yet followed by a successful one
 	restarted := false
+	reloadPending := false // queue mode: a reload sits in the reload queue
+	reloadAfterFailure := false // a queued reload fired after a failed update not yet followed by a successful one
 	lostReload := ""
 	newInst := true // the instance has not written a configuration yet
 	up := false     // the instance has reloaded haproxy at least once
@@ -308,6 +329,17 @@ func runHistory(base string, h History) runResult {
 		}
 		if e.Queue != nil && e.Queue.Adds > q {
 			o.ReloadAsked = true
+			reloadPending = true
+		}
+		if st.Restart {
+			// the queue of the former controller is gone with it
+			reloadPending = o.ReloadAsked
+		}
+		if e.Queue != nil && reloadPending && !st.DeferReload {
+			reloadPending = false
+			if err != nil || pendingFault != "" {
+				reloadAfterFailure = true
+			}
 			// what services.reloadHAProxy does when the queue fires: Reload, and on error add itself again
 			for try := 0; try < 10; try++ {
 				o.QueueTries++
@@ -332,6 +364,7 @@ func runHistory(base string, h History) runResult {
 		}
 		o.Disk = e.ReadDisk()
 		o.Running = running
+		o.LastFailed = e.LastFailed()
 		r.Obs = append(r.Obs, o)
 		where := fmt.Sprintf("step %d (%s sync, faults %v)", i, map[bool]string{true: "full", false: "partial"}[st.Full], st.Faults)
 		if err != nil {
@@ -364,9 +397,13 @@ func runHistory(base string, h History) runResult {
 		if restarted && staleShardBackend(o.Disk, st.State) {
 			key = "restart-keeps-stale-shard-files"
 		}
+		if pendingFault != "" && reloadAfterFailure && o.Disk.Canon() != fresh {
+			key = "failed-update-forgotten-after-queued-reload"
+		}
+		reloadAfterFailure = false
 		if o.Disk.Canon() != fresh {
 			fail(key, where+": after the failed update(s) [first fault "+pendingFault+"] this update succeeded but the files differ from those of a fresh instance: "+firstDiff(o.Disk.Canon(), fresh))
-		} else if running != fresh {
+		} else if running != fresh && !reloadPending {
 			// a reload that did not happen and was not reported: name its shape
 			if lostReload == "" {
 				switch {
